@@ -151,6 +151,37 @@ def gen_opts(rng, constants):
     return o
 
 
+_EL_CACHE = {}
+
+
+def fit_budget(f, o, isotope, budget=150000):
+    """mass view without max_isotopes: the code keeps every distinct rounded mass; bound the product of the per-element peak
+    counts (an upper estimate of the output size) by halving the largest contributor - the code needs minutes otherwise"""
+    if o['use_neutron_count'] or o['max_isotopes'] is not None:
+        return f
+    res = o['distribution_resolution']
+    f = dict(f)
+    for _ in range(40):
+        sizes = {}
+        for e, v in f.items():
+            if e in ('e', 'p', 'n', 'Xx') or v <= 0:
+                continue
+            n = int(round(v))
+            key = (e, n, res)
+            if key not in _EL_CACHE:
+                d = isotope._calculate_elemental_distribution(e, n, False)
+                _EL_CACHE[key] = len({round(k, res) for k in d}) if res is not None else len(d)
+            sizes[e] = _EL_CACHE[key]
+        prod = 1
+        for v in sizes.values():
+            prod *= v
+        if prod <= budget or not sizes:
+            return f
+        worst = max(sizes, key=lambda e: sizes[e])
+        f[worst] = type(f[worst])(f[worst] // 2) if isinstance(f[worst], int) else float(int(f[worst]) // 2) + 0.5
+    return f
+
+
 def is_fine(o):
     return (not o['use_neutron_count']) and o['max_isotopes'] is None and (o['distribution_resolution'] is None or o['distribution_resolution'] >= 4)
 
@@ -373,7 +404,7 @@ def run(chk):
     for i in range(n_iso):
         o = gen_opts(rng, constants)
         mass_view = not o['use_neutron_count']
-        f = gen_formula(rng, mass_view, fine=is_fine(o))
+        f = fit_budget(gen_formula(rng, mass_view, fine=is_fine(o)), o, isotope)
         cases.append((f, o))
     # a few fixed big / doctest formulas
     for f in ({'C': 12, 'H': 6, 'N': 3}, {'C': 100, 'H': 150, 'N': 15, 'O': 20}, {'C': 100, 'Li': 10, 'N': 15, 'O': 20},
@@ -620,7 +651,7 @@ def run(chk):
 
     tick('exact multinomial TEST')
     # ---------------------------------------------------------------- oracle: every clause on the real code
-    big = chk.broken()
+    big = chk.broken() or bool(os.environ.get('C14_FORCE_BIG'))
     ocases = list(cases)
     extra = (200 if quick else 6000) * (3 if big else 1)
     for _ in range(extra):
@@ -628,15 +659,23 @@ def run(chk):
         if rng.random() < 0.6:
             o.update(max_isotopes=None, min_abundance_threshold=rng.choice([None, 0.0]))
             o.pop('precision', None)
-        f = gen_formula(rng, not o['use_neutron_count'], fine=is_fine(o))
+        f = fit_budget(gen_formula(rng, not o['use_neutron_count'], fine=is_fine(o)), o, isotope)
         ocases.append((f, o))
 
-    o_clauses = check_clauses
+    slow = []
+
+    def o_clauses(c):
+        t1 = time.time()
+        r = check_clauses(c)
+        slow.append((time.time() - t1, repr(c)[:300]))
+        return r
 
     chk.oracle('clauses_sorted_normalised_lightest_mean', ocases, o_clauses,
                nontrivial_fn=lambda c: sum(1 for k, v in c[0].items() if k not in 'epn' and v >= 1) >= 1,
                key_fn=lambda c: repr(c))
 
+    slow.sort(reverse=True)
+    chk.notes.append('slowest oracle cases: ' + '; '.join(f'{t:.1f}s {c}' for t, c in slow[:3]))
     tick('clauses oracle')
     # neutron-offset view = mass view binned by nominal mass
     bcases = []
